@@ -254,7 +254,22 @@ func modWhitespace(goCode string) string {
 	out = errPos.ReplaceAllString(out, "Line: N, Col: N")
 	// adjacent literal writes may be split differently
 	out = strings.ReplaceAll(out, "\")\nWRITE(\"", "")
-	return anyWS.ReplaceAllString(out, " ")
+	return out
+}
+
+// onlyStaticWhitespaceDiffers: the two generated programs are the same Go program once static whitespace
+// written by literal writes is ignored (raw strings and every other Go token must still be equal).
+func onlyStaticWhitespaceDiffers(goA, goB string) bool {
+	fset := token.NewFileSet()
+	fa, err := goparser.ParseFile(fset, "a.go", modWhitespace(goA), 0)
+	if err != nil {
+		return false
+	}
+	fb, err := goparser.ParseFile(fset, "b.go", modWhitespace(goB), 0)
+	if err != nil {
+		return false
+	}
+	return astEqual(fa, fb, "", false) == ""
 }
 
 // ---------- known-defect predicates (decided on the input's parse tree) ----------
@@ -345,7 +360,7 @@ func Run(id string) {
 					if pr := sameProgram(goA, goB); pr != "" {
 						key := "meaning-changed:" + shapeOf(in.Name)
 						// the known layout defects only ever add or drop whitespace; anything else is not attributed to them
-						if modWhitespace(goA) == modWhitespace(goB) {
+						if onlyStaticWhitespaceDiffers(goA, goB) {
 							key = known("whitespace-changed:" + shapeOf(in.Name))
 						}
 						run.Violation(key, fmt.Sprintf("%s: generated code differs after formatting at %s\nsource:\n%s\nformatted:\n%s", in.Name, pr, in.Src, f1), replay)
